@@ -6,6 +6,9 @@ b = json.load(open("/root/.vp/BASELINE.json"))
 fd, path = tempfile.mkstemp(suffix=".junit.xml")
 os.close(fd)
 cmd = b["cmd"].replace("<file>", path)
+repo = os.environ.get("BASELINE_REPO")
+if repo:
+    cmd = cmd.replace("cd /repo", "cd " + repo)
 env = dict(os.environ, PYTHONDONTWRITEBYTECODE="1")
 env.pop("PYXEL_VERIF", None)
 subprocess.run(cmd, shell=True, env=env, stdout=subprocess.DEVNULL, stderr=subprocess.DEVNULL)
